@@ -150,6 +150,8 @@ ExactScenario(cfg) ==
     /\ \A t \in Range(cfg.types) : \A i \in DOMAIN t.offerings : t.offerings[i].cpuOv = 0 /\ t.offerings[i].memOv = 0
                                                                     /\ t.offerings[i].podsOv = 0 /\ t.offerings[i].ohCpu = 0 /\ t.offerings[i].ohMem = 0
     /\ \A d \in Range(cfg.ds) : Len(d.terms) <= 1 /\ DaemonKeys(d) \subseteq {"arch", "os", "it", "gen"}
+    \* a type label a pool requirement reads is defined on EVERY instance type (the provider contract; a catalog that breaks it is C13's food)
+    /\ \A q \in Range(cfg.pools) : \A i \in DOMAIN q.reqs : q.reqs[i].key \in {"arch", "os", "gen"} => \A t \in Range(cfg.types) : q.reqs[i].key \in DOMAIN t.labels
 ExactPod(cfg, e) ==
     /\ NoInterPod(e)
     \* volumes: known claims; bound ones to known volumes, unbound ones with a known StorageClass; topology on the zone only
